@@ -595,6 +595,7 @@ def selftest():
 def replay(path):
     """Re-execute a replay artefact: a trace (.ndjson with 'trace' in its name) is re-validated by
     TLC against PDFContract, a state graph is re-replayed on the real PDF."""
+    path = os.path.abspath(path)
     if path.endswith(".ndjson") and "trace-nonrep" in os.path.basename(path):
         acc, prefix, found = _validate_collect(APPROX_SPEC, path)
         if not acc:
